@@ -29,7 +29,7 @@ func init() {
 			"each field with a random legal combination of optional, default:n, tag:n (0..40, both identifier forms) implicit or explicit, application/private, set, omitempty, ia5|printable|numeric|utf8, utc|generalized; " +
 			"the generator keeps an optional field from being followed by a field with the same effective identifier; values random within the type's documented domain and biased to boundaries; some cases use Marshal/UnmarshalWithParams with top-level parameters; " +
 			"non-trivial = (type, value) whose Marshal succeeded so that the round trip was evaluated; distinct = distinct generated type descriptions (with tags)",
-		MinNontrivial:         6000,
+		MinNontrivial:         7000,
 		MinNontrivialThorough: 25000,
 		Shards:                16,
 		GoMaxProcs:            2,
@@ -131,8 +131,29 @@ func cloneField(f *ffield) *ffield { g := *f; return &g }
 
 func withFields(t *ftype, fields []*ffield) *ftype { return &ftype{kind: fStruct, fields: fields} }
 
+// fieldsInDomain re-checks the generator's struct-level rules on a shrunk field list.
+func fieldsInDomain(fields []*ffield) bool {
+	for j, p := range fields {
+		if j > 0 && ambiguous(fields[:j], p) {
+			return false
+		}
+		if p.optional && p.tag >= 0 && p.explicit {
+			ok := false
+			for _, later := range fields[j+1:] {
+				if neverEmpty(later) {
+					ok = true
+				}
+			}
+			if !ok {
+				return false
+			}
+		}
+	}
+	return true
+}
+
 func shrink(cs c18case, stage string) c18case {
-	same := func(c c18case) bool { return roundTrip(c).stage == stage }
+	same := func(c c18case) bool { return fieldsInDomain(c.t.fields) && roundTrip(c).stage == stage }
 	cur := cs
 	for changed := true; changed; {
 		changed = false
@@ -186,11 +207,6 @@ func shrink(cs c18case, stage string) c18case {
 				mut(g)
 				nf := append([]*ffield{}, cur.t.fields...)
 				nf[i] = g
-				for j, p := range nf {
-					if j > 0 && ambiguous(nf[:j], p) {
-						return
-					}
-				}
 				cand := c18case{t: withFields(cur.t, nf), v: cur.v, params: cur.params}
 				if same(cand) {
 					cur, changed, f = cand, true, g
